@@ -460,6 +460,27 @@ func Sweeps(thorough bool, f func(name string, m ref.Msg, fits bool)) {
 			f(fmt.Sprintf("chain.size=%d@%d", n, pos), ref.Msg{H: BaseHdr, P: ps}, true)
 		}
 	}
+	// chains longer than 64 KiB made of payloads that each fit their 16-bit length field (only the header's Length is
+	// 32 bits wide): totals around 2^16 and 2^17
+	for _, total := range []int{65530, 65531, 65532, 65533, 65534, 65535, 65536, 65537, 65538, 65539, 65540, 65541, 65544, 70000, 98304, 131071, 131072, 131073, 131080} {
+		a := 40000
+		rest := total - (5 + a) - 20 // CERT(a) + CERT(b) + Nonce(16)
+		var ps []ref.Payload
+		ps = append(ps, ref.Payload{T: ref.PCERT, B: 4, Data: Pat(a, total)})
+		for rest > 0 {
+			b := rest - 5
+			if b > 50000 {
+				b = 50000
+			}
+			if b < 1 {
+				b = 1
+			}
+			ps = append(ps, ref.Payload{T: ref.PCERT, B: 4, Data: Pat(b, b)})
+			rest -= 5 + b
+		}
+		ps = append(ps, ref.Payload{T: ref.PNonce, Data: Pat(16, total)})
+		f(fmt.Sprintf("chain.total=%d", total), ref.Msg{H: BaseHdr, P: ps}, true)
+	}
 	// the same inside one SA payload: the number of proposals, and a variable-length attribute of every length in
 	// the middle proposal
 	for k := 1; k <= 64; k++ {
